@@ -203,8 +203,10 @@ def _insitu(ctx, mon, shard):
         texts = []
         for i in range(n):
             s = _rand_string(rng, pools)
-            if any(c in s for c in "\\{}") or not s.strip():
+            if any(c in s for c in "\\{}") or not s.strip() or "\n" in s or "\r" in s:
                 s = "L%d" % i
+            if rng.random() < 0.15:
+                s = rng.choice(pools["marks"]) + s  # a label that starts with a combining accent
             texts.append(s)
         data = [{"time": float(10 * i + rng.randrange(0, 5)), "width": 30 + i, "text": t} for i, t in enumerate(texts)]
         opts = {"scale": LinearScale(), "direction": rng.choice(["up", "down", "left", "right"]),
@@ -220,6 +222,26 @@ def _insitu(ctx, mon, shard):
                 ctx.judge("insitu-export", INCONCLUSIVE, case, reason="export raised %s outside uni2tex (C11's concern)" % type(e).__name__)
             continue
         defs = re.findall(r"^\\def\\text[A-Za-z]+\{(.*)\}$", doc, flags=re.M)
+        # the export boundary itself: every label text must be present as the body of one \def\text<ID>{...} macro,
+        # converted as the property says - whether or not the emitter routed it through uni2tex label by label
+        from oracles import texinv
+
+        raw = re.findall(r"^\\def\\text[A-Za-z]+(.*)$", doc, flags=re.M)
+        bad_macro = [r for r in raw if not (r.startswith("{") and r.endswith("}"))]
+        bodies = [r[1:-1] for r in raw if r.startswith("{") and r.endswith("}")]
+        unmatched = []
+        pool = list(bodies)
+        for t in texts:
+            hit = next((b for b in pool if texinv.judge(t, b)[0]), None)
+            if hit is None:
+                unmatched.append(t)
+            else:
+                pool.remove(hit)
+        if bad_macro or unmatched or len(raw) != n:
+            ctx.judge("insitu-export", VIOLATED, case, finding={"rule": "label text does not reach the TikZ document intact", "malformed_macros": bad_macro[:2],
+                                                                 "texts_without_a_matching_macro": unmatched[:2], "macro_bodies": bodies[:4]},
+                      key="export:label-text-macro")
+            continue
         if mon.n_violations > v0:
             ctx.judge("insitu-export", VIOLATED, case, finding=mon.violations[-1], key="uni2tex:" + mon.violations[-1]["reason"].split(":")[0])
         elif mon.calls - c0 < n or len(defs) != n:
